@@ -610,7 +610,7 @@ def check_C09(tier, ev):
 
 # ---- properties decided on the Chain specification -------------------------------------------
 CHAIN = {
-    "C01": dict(cfgs=["atomic"], focus="ok,raw,post,respcount,panic",
+    "C01": dict(cfgs=["atomic"], focus="ok,raw,post,respcount,panic", always="ok.swallowed",
                 need=["err", "ok", "two_or_more_invocations", "failing_contract", "sudo", "instantiate"],
                 what="every entry point (execute, execute_multi of 1-3 messages, the Executor helpers, sudo bank mint, sudo wasm via "
                      "sudo and wasm_sudo) x message trees in which every node may fail and no failure is absorbed (reply_on in "
